@@ -29,3 +29,7 @@ def register(add):
               bound_note='loops bounded by the bit length of the precision of configuration w8 (80 bits), unwound completely')
     add('bn_rec_win@w8', ['C08', 'C09'], 'bn_rec_win', sources=[REC], decls='bn_st *k; uint8_t *win; size_t *len; size_t w;',
         call='bn_rec_win(win, len, k, w)', replace=['bn_bits'], **w8)
+    add('bn_rec_reg@w8', ['C08', 'C09'], 'bn_rec_reg', sources=[REC], decls='bn_st *k; int8_t *naf; size_t *len; size_t n, w;',
+        call='bn_rec_reg(naf, len, k, n, w)', headers=H, replace=['dv_zero', 'dv_copy', 'bn_rsh1_low', 'bn_rshb_low'], conf='w8', route='bounded', unwind=15, timeout=900, defines=['VC_REG_MAXN=12'], flags=['--sat-solver', 'cadical', '--object-bits', '10'],
+        bound_note='n <= 12 bits, every window width 2..8, every operand length of configuration w8 (<= 10 digits of 8 bits); loops unwound completely',
+        note='frame, output length and error behaviour only; digit values not claimed')
